@@ -6,13 +6,17 @@ From AV Require Import Lib.Base H1.Chunked H1.PayloadDec H1.Framing H1.Codec H1.
 
 Section S.
   Variable head : bytes -> head_res.
-  Variables maxb maxp : N.
+  Variables maxb maxp cap : N.
   Hypothesis Hmaxb : 0 < maxb.
+  (* the reader's early-return threshold (dispatcher.rs) is not below the decoder's TooLarge
+     threshold (decoder.rs): without this the reader stops while the decoder still says
+     "partial, need more" (see [reader_starves_below_cap]) *)
+  Hypothesis Hcap : maxb <= cap.
   Hypothesis Hmaxp : 0 < maxp.
   Hypothesis HL : HeadLaws head.
 
-  Notation xexec := (xexec head maxb maxp).
-  Notation xstep := (xstep head maxb maxp).
+  Notation xexec := (xexec head maxb maxp cap).
+  Notation xstep := (xstep head maxb maxp cap).
 
   (* one socket read followed by one poll_request with an empty message queue and a payload that
      does not pause the reader *)
@@ -51,7 +55,7 @@ Section S.
     xstep (gate_of c r ms q) (XRead seg) = gate_of c (r ++ seg) ms q.
   Proof.
     intro H. unfold GateExec.xstep, gate_of. cbn [g_read_buf].
-    replace (maxb <=? lenN r) with false by lia. reflexivity.
+    replace (cap <=? lenN r) with false by lia. reflexivity.
   Qed.
 
   Lemma step_queue c r ms q n : xstep (gate_of c r ms q) (XQueue n) = gate_of c r ms n.
@@ -78,8 +82,8 @@ Section S.
     g_read_disconnect (xexec ops g) = true.
   Proof.
     induction ops as [|o ops IH]; intros g H; [exact H|].
-    change (GateExec.xexec head maxb maxp (o :: ops) g) with (xexec ops (xstep g o)).
-    apply IH. destruct (xstep_frozen head maxb maxp g o H) as [A _]. exact A.
+    change (GateExec.xexec head maxb maxp cap (o :: ops) g) with (xexec ops (xstep g o)).
+    apply IH. destruct (xstep_frozen head maxb maxp cap g o H) as [A _]. exact A.
   Qed.
 
   Theorem gate_reads_eq_feed : forall segs c r ms q,
@@ -95,11 +99,98 @@ Section S.
       destruct (run head maxb (run_fuel (r ++ seg)) c (r ++ seg) ms) as [c' r' ms'|e ms'| |] eqn:Ho.
       + destruct (run_need_small _ _ _ _ _ _ _ Hc Ho) as [Hs Hc']. apply IH; assumption.
       + cbn [agrees].
-        match goal with |- context [GateExec.xexec head maxb maxp ?ops ?g] =>
-          destruct (xexec_frozen head maxb maxp ops g eq_refl) as [A B]; rewrite A, B;
+        match goal with |- context [GateExec.xexec head maxb maxp cap ?ops ?g] =>
+          destruct (xexec_frozen head maxb maxp cap ops g eq_refl) as [A B]; rewrite A, B;
           rewrite (xexec_keeps_disconnect ops g eq_refl) end.
         cbn [g_msgs g_rejected]. repeat split.
       + exact I.
       + exact I.
   Qed.
+
+  (* the drain loop never panics from a reachable codec state *)
+  Lemma run_no_panic : forall f c buf acc, cinv c -> run head maxb f c buf acc <> OPanic.
+  Proof.
+    induction f as [|f IH]; intros c buf acc Hc; [discriminate|].
+    cbn [run]. destruct (codec_decode head maxb c buf) as [[[c1 b1] [m|]]|e|] eqn:Hd; try discriminate.
+    - destruct (cdecode_progress head maxb HL _ _ _ _ _ Hc Hd) as [Hc1 _]. apply IH. exact Hc1.
+    - exfalso. unfold codec_decode in Hd. unfold cinv in Hc. destruct (c_payload c) as [k|].
+      + pose proof (pdecode_ok k buf [] Hc) as S.
+        destruct (pdecode k buf) as [|[[k' b'] [[ch|]|]]| |]; try discriminate Hd; exact S.
+      + unfold request_decode in Hd. destruct (head buf) as [|n mm t v hs|e0]; try discriminate Hd.
+        * destruct (maxb <=? lenN buf); discriminate Hd.
+        * destruct (request_payload v mm hs) as [[[pt ka] ex]|]; [destruct pt|]; discriminate Hd.
+  Qed.
+
+  (* THE READER NEVER STOPS BEFORE THE DECODER HAS DECIDED.  Under every read schedule, as long as
+     no request has been rejected, the next socket read is performed (read_available does not take
+     its early return): what the drain loop leaves unread is < maxb (the decoder's limit: a longer
+     unfinished head is TooLarge), and maxb <= cap.  With [gate_reads_eq_feed] / [feed_eq_run]:
+     every framed request whose head is below the decoder limit is delivered. *)
+  Theorem reader_never_stops_early : forall segs c r ms q seg,
+    cinv c -> lenN r < maxb ->
+    let g := xexec (read_ops segs) (gate_of c r ms q) in
+    g_rejected g = None ->
+    lenN (g_read_buf g) < cap /\ g_read_buf (xstep g (XRead seg)) = g_read_buf g ++ seg.
+  Proof.
+    induction segs as [|s0 more IH]; intros c r ms q seg Hc Hr.
+    - cbv zeta. change (xexec (read_ops []) (gate_of c r ms q)) with (gate_of c r ms q). intros _.
+      rewrite step_read by assumption. unfold gate_of; cbn [g_read_buf]. split; [lia|reflexivity].
+    - cbn [read_ops flat_map app].
+      assert (Hcons : forall o ops g, xexec (o :: ops) g = xexec ops (xstep g o)) by reflexivity.
+      do 3 rewrite Hcons. fold (read_ops more).
+      rewrite step_read by assumption. rewrite step_queue, step_poll.
+      destruct (run head maxb (run_fuel (r ++ s0)) c (r ++ s0) ms) as [c' r' ms'|e ms'| |] eqn:Ho.
+      + destruct (run_need_small _ _ _ _ _ _ _ Hc Ho) as [Hs Hc']. apply IH; assumption.
+      + cbv zeta. intros Hg. exfalso.
+        match type of Hg with context [GateExec.xexec head maxb maxp cap ?ops ?g] =>
+          destruct (xexec_frozen head maxb maxp cap ops g eq_refl) as [_ B]; rewrite B in Hg end.
+        discriminate Hg.
+      + exfalso. exact (run_no_panic _ _ _ _ Hc Ho).
+      + exfalso. revert Ho. apply (run_enough head maxb HL); [exact Hc|].
+        unfold run_fuel, measure. pose proof (pend_le1 c). lia.
+  Qed.
 End S.
+
+(* The premise [maxb <= cap] is necessary: if the reader's threshold is below the decoder's, a gate
+   holding an unfinished head of at least [cap] but fewer than [maxb] bytes is stuck for ever -
+   read_available takes its early return, the decoder answers "need more", nothing is delivered and
+   nothing is rejected (no 431), whatever is read, polled or dequeued afterwards. *)
+Section Starve.
+  Variable head : bytes -> head_res.
+  Variables maxb maxp cap : N.
+  Notation xexec := (xexec head maxb maxp cap).
+  Notation xstep := (xstep head maxb maxp cap).
+
+  Definition stuck (g : gate) : Prop :=
+    g_read_disconnect g = false /\ c_payload (g_codec g) = None /\
+    head (g_read_buf g) = HPartial /\ cap <= lenN (g_read_buf g) /\ lenN (g_read_buf g) < maxb.
+
+  Lemma stuck_step g o : stuck g -> o <> XPeerClosed ->
+    stuck (xstep g o) /\ g_msgs (xstep g o) = g_msgs g /\ g_rejected (xstep g o) = g_rejected g /\ g_read_buf (xstep g o) = g_read_buf g.
+  Proof.
+    intros (Hd & Hp & Hh & Hc & Hm) Ho. unfold stuck.
+    destruct o as [bs| |pl|n]; cbn [GateExec.xstep].
+    - replace (cap <=? lenN (g_read_buf g)) with true by lia. repeat split; assumption.
+    - contradiction.
+    - cbn [gstep]. unfold poll_request.
+      destruct ((maxp <=? g_queued g) || negb (can_read g pl)); [repeat split; assumption|].
+      unfold run_fuel. replace (2 * length (g_read_buf g) + 3)%nat with (S (2 * length (g_read_buf g) + 2)) by lia.
+      cbn [run]. unfold codec_decode. rewrite Hp. unfold request_decode. rewrite Hh.
+      replace (maxb <=? lenN (g_read_buf g)) with false by lia.
+      cbn [g_read_disconnect g_codec g_read_buf g_msgs g_rejected]. repeat split; assumption.
+    - cbn. repeat split; assumption.
+  Qed.
+
+  Theorem reader_starves_below_cap : forall ops g,
+    stuck g -> Forall (fun o => o <> XPeerClosed) ops ->
+    stuck (xexec ops g) /\ g_msgs (xexec ops g) = g_msgs g /\ g_rejected (xexec ops g) = g_rejected g /\ g_read_buf (xexec ops g) = g_read_buf g.
+  Proof.
+    induction ops as [|o ops IH]; intros g Hs Hf;
+      [change (GateExec.xexec head maxb maxp cap [] g) with g; auto|].
+    change (GateExec.xexec head maxb maxp cap (o :: ops) g) with (xexec ops (xstep g o)).
+    pose proof (Forall_inv Hf) as Ho. pose proof (Forall_inv_tail Hf) as Hf'.
+    destruct (stuck_step g o Hs) as (S1 & M1 & R1 & B1); [assumption|].
+    destruct (IH _ S1) as (S2 & M2 & R2 & B2); [assumption|].
+    rewrite M2, R2, B2. auto.
+  Qed.
+End Starve.
